@@ -24,6 +24,8 @@ import (
 	"go/ast"
 	"go/token"
 	"reflect"
+	"strconv"
+	"strings"
 
 	"github.com/uber-go/gopatch/internal/data"
 )
@@ -38,6 +40,9 @@ type SliceDotsMatcher struct {
 
 	// Positions at which dots were found.
 	Dots []token.Pos // inv: len(dots) = len(sections) - 1
+
+	// Uses[i] lists the metavariables that occur in Sections[i:].
+	Uses [][]string // inv: len(uses) = len(sections)
 }
 
 func (c *matcherCompiler) compileSliceDots(items reflect.Value, isDots func(ast.Node) bool) Matcher {
@@ -48,7 +53,9 @@ func (c *matcherCompiler) compileSliceDots(items reflect.Value, isDots func(ast.
 		sections [][]Matcher
 		current  []Matcher
 		dots     []token.Pos
+		starts   []int // index into c.metavars at which each section begins
 	)
+	starts = append(starts, len(c.metavars))
 	for i := 0; i < items.Len(); i++ {
 		item := items.Index(i)
 		if n, ok := item.Interface().(ast.Node); ok && isDots(n) {
@@ -56,6 +63,7 @@ func (c *matcherCompiler) compileSliceDots(items reflect.Value, isDots func(ast.
 			c.dots = append(c.dots, dotPos)
 			dots = append(dots, dotPos)
 			sections = append(sections, current)
+			starts = append(starts, len(c.metavars))
 			current = nil
 		} else {
 			current = append(current, c.compile(item))
@@ -69,7 +77,18 @@ func (c *matcherCompiler) compileSliceDots(items reflect.Value, isDots func(ast.
 		return SliceMatcher{Items: sections[0]}
 	}
 
-	return SliceDotsMatcher{Sections: sections, Dots: dots}
+	uses := make([][]string, len(sections))
+	for i, from := range starts {
+		seen := make(map[string]struct{})
+		for _, name := range c.metavars[from:] {
+			if _, ok := seen[name]; !ok {
+				seen[name] = struct{}{}
+				uses[i] = append(uses[i], name)
+			}
+		}
+	}
+
+	return SliceDotsMatcher{Sections: sections, Dots: dots, Uses: uses}
 }
 
 // Match matches
@@ -88,18 +107,31 @@ func (m SliceDotsMatcher) Match(got reflect.Value, d data.Data, r Region) (data.
 	return m.matchSections(0, gotItems, d, r, idx, make(deadEnds))
 }
 
-// deadEnds records, for one set of metavariable bindings, the (section,
-// index) pairs from which the rest of the pattern is known not to match.
-type deadEnds map[[2]int]struct{}
+// deadEnds records from where the rest of a pattern is known not to match:
+// see deadEndKey.
+type deadEnds map[string]struct{}
 
-// metavarCount returns the number of metavariables bound in d.
-func metavarCount(d data.Data) (n int) {
-	for _, k := range d.Keys() {
-		if _, ok := k.(metavarKey); ok {
-			n++
+// deadEndKey names the question "do Sections[i+1:] match got[idx:]?". The
+// answer depends on i, idx and on what the metavariables occurring in those
+// sections are bound to - not on which items the earlier "..." skipped, nor
+// on other metavariables. ok is false if a binding cannot be identified.
+func (m SliceDotsMatcher) deadEndKey(i, idx int, d data.Data) (key string, ok bool) {
+	var b strings.Builder
+	b.WriteString(strconv.Itoa(i))
+	b.WriteByte(',')
+	b.WriteString(strconv.Itoa(idx))
+	for _, name := range m.Uses[i+1] {
+		var md metavarData
+		node := uintptr(0)
+		if data.Lookup(d, metavarKey(name), &md) {
+			if node = md.Node; node == 0 {
+				return "", false
+			}
 		}
+		b.WriteByte(',')
+		b.WriteString(strconv.FormatUint(uint64(node), 16))
 	}
-	return n
+	return b.String(), true
 }
 
 // matchSections matches Sections[i+1:] against got[idx:]. Each "..." takes
@@ -108,13 +140,9 @@ func metavarCount(d data.Data) (n int) {
 // position for a section does not lead to a full match, later positions are
 // tried.
 //
-// Whether Sections[i+1:] match got[idx:] depends on i, idx and the
-// metavariables bound so far, not on which items the earlier "..." skipped.
-// dead remembers the (i, idx) that are known to fail under the current
-// bindings; a candidate that binds another metavariable continues with a
-// fresh record. Without it the same remainder is tried again from every
-// combination of earlier choices, which takes time exponential in the number
-// of "...".
+// dead remembers the questions (see deadEndKey) whose answer is known to be
+// no. Without it the same remainder is tried again from every combination of
+// earlier choices, which takes time exponential in the number of "...".
 //
 // Invariant: If ok is true, a list of skipped items will have been pushed to
 // Data for every "...".
@@ -122,10 +150,10 @@ func (m SliceDotsMatcher) matchSections(i int, got []reflect.Value, d data.Data,
 	if i == len(m.Sections)-1 {
 		return d, idx == len(got)
 	}
-	if _, failed := dead[[2]int{i, idx}]; failed {
+	key, memo := m.deadEndKey(i, idx, d)
+	if _, failed := dead[key]; memo && failed {
 		return d, false
 	}
-	bound := metavarCount(d)
 
 	dots, want := m.Dots[i], m.Sections[i+1]
 
@@ -142,16 +170,14 @@ func (m SliceDotsMatcher) matchSections(i int, got []reflect.Value, d data.Data,
 		if !ok {
 			continue
 		}
-		next := dead
-		if metavarCount(newD) != bound {
-			next = make(deadEnds)
-		}
-		if newD, ok := m.matchSections(i+1, got, newD, r, newIdx, next); ok {
+		if newD, ok := m.matchSections(i+1, got, newD, r, newIdx, dead); ok {
 			return newD, true
 		}
 	}
 
-	dead[[2]int{i, idx}] = struct{}{}
+	if memo {
+		dead[key] = struct{}{}
+	}
 	return d, false
 }
 
